@@ -89,15 +89,18 @@ pub fn run<W: Write>(out: &mut W, seed: u64, n: usize, opts: &HashMap<String, St
         let a = if creating && both_names { Some(vec![]) } else { a };
         let b = if deleting && both_names { Some(vec![]) } else { b };
         // `diff f.orig f` never has /dev/null on the other side: the .orig style is for existing files only
-        if dialect == Dialect::Orig && (creating || deleting) { dialect = Dialect::Plain; }
+        // (except: `diff -uN f.orig f` for a file that did not exist names `f.orig` and `f`; neither exists, the
+        // new name is the one to create. Only pushed forward: backwards such a patch leaves an empty file.)
+        let orig_create = dialect == Dialect::Orig && creating && !both_names && rng.chance(60);
+        if dialect == Dialect::Orig && (creating || deleting) && !orig_create { dialect = Dialect::Plain; }
         let mut text = Vec::new();
         if rng.chance(30) { text.extend_from_slice(b"Subject: a change\n\n"); }
         text.extend_from_slice(&render_header(&HeaderSpec {
-            old: if creating && !both_names { None } else { Some(name) }, new: if deleting && !both_names { None } else { Some(name) },
+            old: if creating && !both_names && !orig_create { None } else { Some(name) }, new: if deleting && !both_names { None } else { Some(name) },
             dialect, p, rename: false, old_mode: None, new_mode: None, creating: creating && dialect == Dialect::Git && false, deleting: false, has_hunks: true }));
         text.extend_from_slice(&hunks);
-        let reverse = rng.chance(35);
-        emit(out, id, &a, &b, reverse, p, name, &text, rng.chance(cli_pct));
+        let reverse = rng.chance(35) && !orig_create;
+        emit(out, id, &a, &b, reverse, p, name, &text, rng.chance(cli_pct) || (orig_create && rng.chance(50)));
     }
 }
 
